@@ -139,11 +139,15 @@ def h_load_defs(parser, buf, mac, args, delim, pos):
     if not ok:
         return utils.latex_error('could not read file ' + repr(file),
                                         pos, parser.latex, parser.parms)
+    n_extr = len(parser.extracted)
     try:
         toks = parser.parser_work(latex)
     except RecursionError:
         utils.fatal('Problem while executing "' + mac.name + '{' + file
                     + '}".\n' + '*** Is the file included recursively?')
+    # NB: text flows from the file (\footnote, ...) carry positions of
+    # the file, they are dropped like its main text
+    del parser.extracted[n_extr:]
     return utils.filter_set_toks(toks, pos, defs.LanguageToken)
 
 #   read definitions for a LaTeX package
